@@ -1,6 +1,7 @@
 (** C04 -- property file.  Only: instantiation obligations on the facts regenerated from /repo, the full statement,
-    the proved statements (closed by the generic theorems of SF.C04), non-vacuity examples, refutation witnesses
-    (conditional on the regenerated summary still containing the write), Print Assumptions. *)
+    the theorem (closed by the generic theorems of SF.C04), a non-vacuity example, and the refutation witnesses of the
+    defects that were repaired in /repo (conditional on the regenerated summary containing the write again: they stay
+    compiled so that a regression is recognised by the model, and are vacuous while the fix is in place). *)
 From SF Require Import C04.Heap C04.Exec.
 From Gen Require Import C04Facts.
 From Coq Require Import List String Bool.
@@ -12,6 +13,14 @@ Open Scope string_scope.
 Lemma gen_struct_ok : facts_struct_ok gen_facts = true.
 Proof. vm_compute. reflexivity. Qed.
 
+(** the ONLY write any public method makes through an existing DataFrame is the last_op stamp that the wrapper puts on
+    the receiver when select() without columns returns its receiver: no display-name update on the receiver
+    (fixed in /repo), no rewriting of hint objects shared with other DataFrames (copy() copies them; fixed in /repo) *)
+Lemma gen_only_last_writes : only_last_writes gen_facts = true.
+Proof. vm_compute. reflexivity. Qed.
+Lemma gen_copy_is_deep : copy_shares_hints = false.
+Proof. reflexivity. Qed.
+
 (** a freshly created DataFrame (last_op = INIT) is never handed to a method body: INIT always wraps *)
 Lemma gen_init_wraps : forallb (fun op => wraps op INIT) all_opk = true.
 Proof. vm_compute. reflexivity. Qed.
@@ -21,26 +30,6 @@ Lemma gen_group_wrapper_same :
   forallb (fun a => forallb (fun b => Bool.eqb (wrap_needed a b) (wrap_needed_group a b) &&
                                       opk_eqb (new_kind a b) (new_kind_group a b)) all_opk) all_opk
   && Bool.eqb init_wraps init_wraps_group = true.
-Proof. vm_compute. reflexivity. Qed.
-
-(** the methods with a write that is not into (shared) hint objects: exactly the complement of the frame theorem's
-    unconditional domain.  Listed = staged as known findings (or harmless: isEmpty/corr/cov/approxQuantile write an
-    empty or invisible update).  A method missing here makes this obligation fail. *)
-Definition direct_writer (mi : minfo) : bool := existsb (fun w => negb (shared_t (gw_t w))) (mi_writes mi).
-Definition known_writers : list string :=
-  ["select"; "agg"; "withColumn"; "withColumns"; "withColumnRenamed";
-   "isEmpty"; "approxQuantile"; "corr"; "cov"; "stat.approxQuantile"; "stat.corr"; "stat.cov"].
-Lemma gen_complement_pure :
-  forallb (fun mi => negb (direct_writer mi) || mem_str (mi_name mi) known_writers) methods = true.
-Proof. vm_compute. reflexivity. Qed.
-
-(** every such write goes through the receiver, into its display map or last_op, behind a SELECT-class wrapper *)
-Definition select_guarded (w : gwrite) : bool :=
-  shared_t (gw_t w) || (match gw_root w with RSelf => true | ROther => false end && existsb (opk_eqb SELECT) (gw_guard w)).
-Lemma gen_direct_writes_guarded : forallb (fun mi => forallb select_guarded (mi_writes mi)) methods = true.
-Proof. vm_compute. reflexivity. Qed.
-Lemma gen_direct_writes_display :
-  forallb (fun mi => forallb (fun w => shared_t (gw_t w) || wt_eqb (gw_t w) WDisplay || wt_eqb (gw_t w) WLast) (mi_writes mi)) methods = true.
 Proof. vm_compute. reflexivity. Qed.
 
 (** laziness: whatever returns a DataFrame / GroupedData never reaches _collect/_execute/_fetchdf/catalog queries;
@@ -54,102 +43,69 @@ Definition is_transformation (mi : minfo) : bool := match mi_ret mi with RetDF |
 Lemma gen_transformations_lazy : forallb (fun mi => negb (is_transformation mi) || negb (mi_exec mi)) methods = true.
 Proof. vm_compute. reflexivity. Qed.
 
-(** * the property at full strength *)
+(** * the property at full strength: every call sequence, every reachable heap, every call of a summarised method,
+      every DataFrame alive before the call *)
 Definition C04_frame_full : Prop :=
   forall st c st', reachable gen_facts st -> sstep gen_facts st c st' ->
     forall d0, In d0 (snd st) -> value (fst st') d0 = value (fst st) d0.
 Definition C04_lazy_full : Prop :=
   forall h c h' mi, step gen_facts h c h' -> find_m gen_facts (c_name c) = Some mi -> is_transformation mi = true ->
     stmts h' = stmts h.
-Definition C04_full : Prop := C04_frame_full /\ C04_lazy_full.
-
-(** * what is proved *)
-(** laziness holds in full *)
-Theorem C04_lazy_holds : C04_lazy_full.
-Proof.
-  intros h c h' mi Hs Hf Ht. apply (lazy_step Hs Hf).
-  pose proof gen_transformations_lazy as G. rewrite forallb_forall in G.
-  specialize (G mi (find_m_in _ _ Hf)). rewrite Ht in G. simpl in G. apply negb_true_iff in G. exact G.
-Qed.
-Print Assumptions C04_lazy_holds.
-
-(** immutability on the decidable domain [call_safe]: in this state the call's may-write set is empty
-    (all call sequences, all heaps reachable from the empty one) *)
-Theorem C04_partial :
-  forall st c st', reachable gen_facts st -> sstep gen_facts st c st' -> call_safe gen_facts (fst st) c = true ->
-    forall d0, In d0 (snd st) -> value (fst st') d0 = value (fst st) d0.
-Proof. exact (fun st c st' => @frame gen_facts st c st' gen_struct_ok). Qed.
-Print Assumptions C04_partial.
-
-(** readable instances of the domain: (1) every method outside [known_writers], on DataFrames without pending hints *)
-Theorem C04_pure_methods :
-  forall st c st' mi, reachable gen_facts st -> sstep gen_facts st c st' ->
-    find_m gen_facts (c_name c) = Some mi -> mem_str (mi_name mi) known_writers = false ->
-    hint_free (fst st) (c_recv c) = true -> (forall o, c_other c = Some o -> hint_free (fst st) o = true) ->
-    forall d0, In d0 (snd st) -> value (fst st') d0 = value (fst st) d0.
-Proof.
-  intros st c st' mi Hr Hs Hf Hk H1 H2. apply C04_partial with c; auto.
-  apply shared_only_safe with mi; auto.
-  pose proof gen_complement_pure as G. rewrite forallb_forall in G. specialize (G mi (find_m_in _ _ Hf)).
-  rewrite Hk in G. rewrite orb_false_r in G. apply negb_true_iff in G. unfold direct_writer in G.
-  apply forallb_forall. intros w Hw. destruct (shared_t (gw_t w)) eqn:E; [reflexivity|].
-  assert (X : existsb (fun w => negb (shared_t (gw_t w))) (mi_writes mi) = true)
-    by (apply existsb_exists; exists w; split; [exact Hw | rewrite E; reflexivity]).
-  rewrite X in G. discriminate G.
-Qed.
-Print Assumptions C04_pure_methods.
-
-(** (2) every method, when the receiver's last operation makes a SELECT-class wrapper wrap (INIT, SELECT, ORDER_BY, LIMIT) *)
-Theorem C04_any_method_after_wrap :
-  forall st c st' mi, reachable gen_facts st -> sstep gen_facts st c st' ->
-    find_m gen_facts (c_name c) = Some mi -> wraps SELECT (last_of (fst st) (c_recv c)) = true ->
-    hint_free (fst st) (c_recv c) = true -> (forall o, c_other c = Some o -> hint_free (fst st) o = true) ->
-    forall d0, In d0 (snd st) -> value (fst st') d0 = value (fst st) d0.
-Proof.
-  intros st c st' mi Hr Hs Hf Hw H1 H2. apply C04_partial with c; auto.
-  apply guarded_safe with mi SELECT; auto.
-  pose proof gen_direct_writes_guarded as G. rewrite forallb_forall in G. exact (G mi (find_m_in _ _ Hf)).
-Qed.
-Print Assumptions C04_any_method_after_wrap.
-
-(** (3) even in the complement, a call without hint traffic can only change its own RECEIVER *)
-Theorem C04_only_receiver :
-  forall st c st', reachable gen_facts st -> sstep gen_facts st c st' -> self_only gen_facts (fst st) c = true ->
-    forall d0, In d0 (snd st) -> d0 <> c_recv c -> value (fst st') d0 = value (fst st) d0.
-Proof. exact (fun st c st' => @frame_receiver_only gen_facts st c st' gen_struct_ok). Qed.
-Print Assumptions C04_only_receiver.
-
-(** (4) repeating a call from a safe state: same values, hence same answers *)
-Theorem C04_repeat :
+Definition C04_repeat_full : Prop :=
   forall st c st1 st2, reachable gen_facts st -> sstep gen_facts st c st1 -> sstep gen_facts st1 c st2 ->
-    call_safe gen_facts (fst st) c = true -> call_safe gen_facts (fst st1) c = true ->
     forall d0, In d0 (snd st) -> value (fst st1) d0 = value (fst st) d0 /\ value (fst st2) d0 = value (fst st) d0.
-Proof. exact (fun st c st1 st2 => @repeat_call gen_facts st c st1 st2 gen_struct_ok). Qed.
-Print Assumptions C04_repeat.
+Definition C04_full : Prop := C04_frame_full /\ C04_repeat_full /\ C04_lazy_full.
 
-(** * non-vacuity: concrete scripts of the executable model *)
+Lemma every_call_value_safe : forall st c st', sstep gen_facts st c st' -> value_safe gen_facts (fst st) c = true.
+Proof.
+  intros [h live] c [h' live'] [_ [_ [[mi [Hf _]] _]]]. simpl.
+  exact (@only_last_value_safe gen_facts h c mi gen_only_last_writes Hf).
+Qed.
+
+Theorem C04_holds : C04_full.
+Proof.
+  split; [|split].
+  - intros st c st' Hr Hs. exact (@frame_value gen_facts st c st' gen_struct_ok Hr Hs (every_call_value_safe st c st' Hs)).
+  - intros st c st1 st2 Hr H1 H2.
+    exact (@repeat_value gen_facts st c st1 st2 gen_struct_ok Hr H1 H2 (every_call_value_safe st c st1 H1) (every_call_value_safe st1 c st2 H2)).
+  - intros h c h' mi Hs Hf Ht. apply (lazy_step Hs Hf).
+    pose proof gen_transformations_lazy as G. rewrite forallb_forall in G.
+    specialize (G mi (find_m_in _ _ Hf)). rewrite Ht in G. simpl in G. apply negb_true_iff in G. exact G.
+Qed.
+Print Assumptions C04_holds.
+
+(** * non-vacuity: concrete scripts of the executable model (which is an instance of [sstep], Exec.run_sstep) *)
 Definition e0 := mkE ["a"; "b"] [] [].
 Definition e1 := mkE ["a"; "b"] [(1, 100)] [].
 Definition e2 := mkE ["a"; "b"; "c"] [(1, 100); (2, 200)] [1; 2].
 Definition m0 : dmap := [("a", "a"); ("b", "b")].
-Definition kplain := mkK DNone RIfWrapped false None None false false false.
-Definition ksel (a : list carg) := mkK (DArgs a) RIfWrapped false None None false false false.
-Definition kact := mkK DNone RAlways false None None false false false.
+Definition kplain := mkK DNone RIfWrapped false None None false false false false.
+Definition ksel (a : list carg) := mkK (DArgs a) RIfWrapped false None None false false false false.
+Definition kact := mkK DNone RAlways false None None false false false false.
+Definition khint := mkK DNone RIfWrapped false None (Some true) false false false false.
+Definition kjoin := mkK DNone RIfWrapped true None None true false false false.
 (** df = createDataFrame(..); d1 = df.where(..) *)
 Definition script_where : list rstep := [SCreate (mkR e0 m0 100); SCall "where" kplain 0 None (Some (mkR e1 m0 100))].
+(** df, o; h = df.hint('broadcast'); j = h.join(o, 'a') *)
+Definition script_hint_join : list rstep :=
+  [SCreate (mkR e0 m0 100); SCreate (mkR e0 m0 200);
+   SCall "hint" khint 0 None (Some (mkR e1 m0 100));
+   SCall "join" kjoin 2 (Some 1) (Some (mkR e2 m0 100))].
+Definition call_select := SCall "select" (ksel [CCol "A"; CStr "B"]) 1 None (Some (mkR e1 [("a", "A"); ("b", "B")] 100)).
+Definition call_alias := SCall "alias" (mkK DNone RIfWrapped false (Some 300) None false false false false) 2 None (Some (mkR e1 m0 300)).
+Definition call_collect := SCall "collect" kact 3 None None.
 
-Example C04_domain_nonempty :
-  match exec_prog gen_facts (h0, []) script_where with
-  | Some (h, live) =>
-      (* where(), collect() on the WHERE-state DataFrame and select() on the fresh one are in the domain *)
-      call_safe gen_facts h (mkC "where" 12 None) && call_safe gen_facts h (mkC "collect" 12 None) &&
-      call_safe gen_facts h (mkC "join" 12 (Some 6)) && call_safe gen_facts h (mkC "select" 6 None)
-      && negb (call_safe gen_facts h (mkC "select" 12 None))
-  | None => false
-  end = true.
+(** the scripts run, the follow-up calls are steps of the model, and no existing DataFrame changes its value
+    (d1.select(col('A'),'B') in the WHERE state; h.alias('x') and j.collect() with a pending join hint) *)
+Example C04_scripts_run :
+  negb (witness_b gen_facts script_where call_select 1) && negb (witness_b gen_facts script_where call_select 0) &&
+  negb (witness_b gen_facts script_hint_join call_alias 3) && negb (witness_b gen_facts script_hint_join call_collect 2) &&
+  match exec_prog gen_facts (h0, []) (script_hint_join ++ [call_alias; call_collect]) with Some (_, live) => Nat.eqb (List.length live) 5 | None => false end
+  = true.
 Proof. vm_compute. reflexivity. Qed.
 
-(** * refutation of the full statement on the faithful model (each is a genuine defect, replayed by T3) *)
+(** * regression witnesses: the repaired defects, on the faithful model.  Each says: IF the regenerated summary has the
+      write again, THEN the full statement is false (a reachable state, a call, an existing DataFrame whose value changes). *)
 Definition writes_display (name : string) : bool :=
   match find_m gen_facts name with
   | Some mi => existsb (fun w => wt_eqb (gw_t w) WDisplay) (mi_writes mi)
@@ -174,44 +130,23 @@ Ltac refute p last v :=
                        apply witness_b_sound; vm_compute; reflexivity
                    end ].
 
-(** d1 = df.where(..); d1.select(col('A'), 'B') changes d1's display names (d1.columns becomes ['A','B']) *)
-Definition call_select := SCall "select" (ksel [CCol "A"; CStr "B"]) 1 None (Some (mkR e1 [("a", "A"); ("b", "B")] 100)).
-Theorem C04_refuted_select : writes_display "select" = true -> refuted_by "select".
+Theorem C04_regression_select : writes_display "select" = true -> refuted_by "select".
 Proof. refute script_where call_select 1. Qed.
-Print Assumptions C04_refuted_select.
-
 Definition call_agg := SCall "agg" (ksel [CAliased "A"]) 1 None (Some (mkR e1 [("a", "A")] 100)).
-Theorem C04_refuted_agg : writes_display "agg" = true -> refuted_by "agg".
+Theorem C04_regression_agg : writes_display "agg" = true -> refuted_by "agg".
 Proof. refute script_where call_agg 1. Qed.
-
-Definition kname (n : list string) := mkK (DNames n) RIfWrapped false None None false false false.
+Definition kname (n : list string) := mkK (DNames n) RIfWrapped false None None false false false false.
 Definition call_withColumn := SCall "withColumn" (kname ["A"]) 1 None (Some (mkR e1 [("a", "A"); ("b", "b")] 100)).
-Theorem C04_refuted_withColumn : writes_display "withColumn" = true -> refuted_by "withColumn".
+Theorem C04_regression_withColumn : writes_display "withColumn" = true -> refuted_by "withColumn".
 Proof. refute script_where call_withColumn 1. Qed.
-
 Definition call_withColumns := SCall "withColumns" (kname ["Z"; "B"]) 1 None (Some (mkR e1 [("a", "a"); ("b", "B")] 100)).
-Theorem C04_refuted_withColumns : writes_display "withColumns" = true -> refuted_by "withColumns".
+Theorem C04_regression_withColumns : writes_display "withColumns" = true -> refuted_by "withColumns".
 Proof. refute script_where call_withColumns 1. Qed.
-
-Definition call_rename := SCall "withColumnRenamed" (mkK (DRename "b" "A") RIfWrapped false None None false false false) 1 None
+Definition call_rename := SCall "withColumnRenamed" (mkK (DRename "b" "A") RIfWrapped false None None false false false false) 1 None
                                 (Some (mkR e1 [("a", "A"); ("b", "b")] 100)).
-Theorem C04_refuted_withColumnRenamed : writes_display "withColumnRenamed" = true -> refuted_by "withColumnRenamed".
+Theorem C04_regression_withColumnRenamed : writes_display "withColumnRenamed" = true -> refuted_by "withColumnRenamed".
 Proof. refute script_where call_rename 1. Qed.
-
-(** h = df.hint('broadcast'); j = h.join(o, 'a'); h.alias('x') rewrites the hint object that j shares with h *)
-Definition khint := mkK DNone RIfWrapped false None (Some true) false false false.
-Definition kjoin := mkK DNone RIfWrapped true None None true false false.
-Definition script_hint_join : list rstep :=
-  [SCreate (mkR e0 m0 100); SCreate (mkR e0 m0 200);
-   SCall "hint" khint 0 None (Some (mkR e1 m0 100));
-   SCall "join" kjoin 2 (Some 1) (Some (mkR e2 m0 100))].
-Definition call_alias := SCall "alias" (mkK DNone RIfWrapped false (Some 300) None false false false) 2 None (Some (mkR e1 m0 300)).
-Theorem C04_refuted_alias : writes_hintobj "alias" = true -> refuted_by "alias".
+Theorem C04_regression_alias : writes_hintobj "alias" = true -> refuted_by "alias".
 Proof. refute script_hint_join call_alias 3. Qed.
-Print Assumptions C04_refuted_alias.
-
-(** ... and an ACTION on j (collect/sql) resolves the shared hint in place: h (and every relative) sees another hint *)
-Definition call_collect := SCall "collect" kact 3 None None.
-Theorem C04_refuted_collect : writes_hintobj "collect" = true -> refuted_by "collect".
+Theorem C04_regression_collect : writes_hintobj "collect" = true -> refuted_by "collect".
 Proof. refute script_hint_join call_collect 2. Qed.
-Print Assumptions C04_refuted_collect.
